@@ -17,11 +17,11 @@ func init() {
 
 var stubCfgs = []clientCfg{
 	{}, // nothing configured: everything is broadcast to the default address
-	{Broadcast: "192.168.1.255:60000", Devices: []devCfg{{Name: "alpha", Serial: 405419896, Addr: "192.168.1.100:60000", Proto: "udp", TZ: "nil"}}},
-	{Bind: "192.168.1.10:0", Devices: []devCfg{{Name: "beta", Serial: 303986753, Addr: "192.168.1.101:60001", Proto: "tcp", TZ: "Asia/Kolkata"}}},
+	{Broadcast: "192.168.1.255:60000", Devices: []devCfg{{Name: "alpha", Serial: 405419896, Addr: "192.168.1.100:60000", Proto: "udp", TZ: "nil", NDoors: 2}}},
+	{Bind: "192.168.1.10:0", Devices: []devCfg{{Name: "beta", Serial: 303986753, Addr: "192.168.1.101:60001", Proto: "tcp", TZ: "Asia/Kolkata", NDoors: 8}}},
 	// the other protocol strings a controller may be configured with (all of them mean UDP)
-	{Bind: "192.168.1.10:50001", Broadcast: "192.168.1.255:60005", Devices: []devCfg{{Name: "alpha", Serial: 405419896, Addr: "192.168.1.100:60000", Proto: "any"},
-		{Name: "beta", Serial: 303986753, Addr: "192.168.1.101:60001", Proto: "", TZ: "America/New_York"}, {Name: "gamma", Serial: 201020304, Addr: "192.168.1.102:60000", Proto: "TCP"}}},
+	{Bind: "192.168.1.10:50001", Broadcast: "192.168.1.255:60005", Devices: []devCfg{{Name: "alpha", Serial: 405419896, Addr: "192.168.1.100:60000", Proto: "any", NDoors: -1},
+		{Name: "beta", Serial: 303986753, Addr: "192.168.1.101:60001", Proto: "", TZ: "America/New_York", NDoors: 1}, {Name: "gamma", Serial: 201020304, Addr: "192.168.1.102:60000", Proto: "TCP", NDoors: 5}}},
 }
 
 func argKey(cs callSpec) string {
